@@ -21,8 +21,8 @@ from ..outcome import canon, observe, short
 PROPERTY = "C13"
 LEVEL = "exploration"
 RULE = (
-    "(a) all sequences up to length 4 over 7 step kinds (decorated steps with option-valued parameters, plain "
-    "callables, helper steps, nested pipelines, empty pipelines) x all bracketings (quick: exhaustive to length 3, "
+    "(a) all sequences up to length 4 over 9 step kinds (decorated steps with option-valued parameters, plain "
+    "callables, helper steps, raw Evaluatable[Callable] operands, nested pipelines, empty pipelines) x all bracketings (quick: exhaustive to length 3, "
     "sampled at 4; thorough: exhaustive to 4, random to 6): transform results of every bracketing equal the plain "
     "Python composition, Pipeline() is a left and right identity, (p+q).transform = q.transform o p.transform, "
     "list(pipeline) composes to the pipeline, (e >> p)(o) == p.transform(e(o), o); option-valued parameters are read "
@@ -112,8 +112,19 @@ def make_steps():
         "nested": (lambda: inner, lambda x, o: ("add", ("in1", x), lookup(o, "AMOUNT", "a")), {"AMOUNT"}),
         "empty": (lambda: Pipeline(), lambda x, o: x, set()),
         "tuple": (lambda: tuple, lambda x, o: tuple(x), set()),
+        # raw Evaluatable[Callable] operands (neither PipelineStep nor Pipeline): documented MaybeEvaluatable input
+        "raw_partial": (lambda: F.partial(_rp, k=Option("K", 2)), lambda x, o: ("rp", x, lookup(o, "K", 2)), {"K"}),
+        "opt_callable": (lambda: Option("FN", plain), lambda x, o: lookup(o, "FN", plain)(x), {"FN"}),
     }
     return table
+
+
+def _rp(x, k):
+    return ("rp", x, k)
+
+
+def _alt_fn(x):
+    return ("alt", x)
 
 
 def bracketings(items):
@@ -429,8 +440,8 @@ def helpers(ctx):
                     ctx.nontrivial(spec_hash(["helper", name, repr(x), False]))
 
 
-STEP_NAMES = ["s_add", "s_two", "plain", "helper", "nested", "empty", "tuple"]
-OPTIONS = [{"Q": "q"}, {"AMOUNT": 5, "Q": 0, "S": {"P": 7}, "H": ("hh",)}, {"AMOUNT": None, "S": {"P": "sp"}}, {}]
+STEP_NAMES = ["s_add", "s_two", "plain", "helper", "nested", "empty", "tuple", "raw_partial", "opt_callable"]
+OPTIONS = [{"Q": "q"}, {"AMOUNT": 5, "Q": 0, "S": {"P": 7}, "H": ("hh",), "K": 9}, {"AMOUNT": None, "S": {"P": "sp"}, "FN": _alt_fn}, {}, {"Q": 1, "K": "k", "FN": _alt_fn}]
 
 
 def run(ctx):
